@@ -17,11 +17,20 @@ func (g *gcfg) c04Check(w *World) []Violation {
 		vs = append(vs, viol("C04", "run-returned-early", "Run() returned while %v still alive", tr[ri].Alive))
 	}
 	// hang: nothing alive, nothing pending in the environment, Run() not returned
-	if ri < 0 && w.Outcome == "stuck" {
+	if ri < 0 && (w.Outcome == "stuck" || w.Outcome == "cutoff") {
 		alive := false
 		for _, f := range w.procs {
 			if f.started && (!f.exited || f.inCleanup) {
 				alive = true
+			}
+		}
+		if w.Outcome == "cutoff" {
+			// cut off at the horizon rather than idle: only a verdict when nothing could happen any more - no
+			// command alive and every process either terminal or still Pending (no back-off or stop in progress)
+			for name := range g.nodes {
+				if st := statusAt(tr, name, len(tr)); !isTerminal(st) && st != "Pending" && st != "Disabled" {
+					alive = true
+				}
 			}
 		}
 		if !alive {
@@ -202,6 +211,17 @@ func c04Scenarios(tier string) []*Scenario {
 				add([]GNode{n, d("b")})
 			}
 		}
+	}
+	// a process that is waited for with process_healthy / process_log_ready and never starts: skipped because
+	// its own dependency failed, or still pending when an exit_on_failure trigger shuts the project down
+	for _, cond := range []string{cHealthy, cLogReady} {
+		a := depNodeFor("a", cond, "sat")
+		a.Beh = "ok"
+		a.Deps = map[string]string{"r": cSucc}
+		add([]GNode{fail("r", 7), a, withDeps(ok("b"), map[string]string{"a": cond})})
+		a2 := depNodeFor("a", cond, "sat")
+		a2.Deps = map[string]string{"w": cCompleted}
+		add([]GNode{eof, d("w"), a2, withDeps(ok("b"), map[string]string{"a": cond})})
 	}
 	// trigger kind x victim kind grid: the code must always be that of the trigger
 	{
